@@ -10,27 +10,10 @@ COMMON_NOTE = ('Trusted: Coq 8.16.1 kernel (+ vm_compute, no native_compute), th
                'CachedMethods 0.2.0 breaks slotted classes; the shim restores 0.1 semantics, /repo is not patched), CPython 3.12.1. '
                'Theorems are about the Coq model; the tie to /repo is the regenerated tables and the model/implementation correspondence run on every check. ')
 
-CLAIMED = {
-    'C18': dict(
-        text=('Proof. All clauses are finite statements over the element tables; coq/gen/Elements.v and RuntimeDump.v are regenerated from '
-              '/repo on every run and 21 theorems (lookups inverse and standard, isotope tables consistent, mass computable, pack/matcher '
-              'representability, .pyx tables, valence tables compile, variants exist) are re-checked by the kernel. The live classes are also '
-              'swept exhaustively (118 elements x isotopes x charges x radical) to produce concrete replays. 19 elements lack their reference '
-              'isotope among the keys: known findings, the theorem is stated _partial/_refuted with the exact exception list.'),
-        ref='5/C18', technique='Coq finite theorems (vm_compute + forallb_forall) over tables regenerated by an ast translator',
-        note='Modelled: lookups from_symbol/from_atomic_number, isotope setter, atomic_mass; everything else is table data read literally.'),
-}
-
-CLAIMED['C12'] = dict(
-    text=('Proof for the sign algebra: the 24-entry tetrahedron table is proved to be exactly permutation parity and the 8-entry alkene table the '
-          'one-end-exchange law (tables regenerated from stereo.py each run); for ANY distinct atom numbers and ANY arrangement (4 listed, first 3, '
-          'explicit H anywhere, implicit H) translate_th returns stored-sign xor parity; re-ordering by q flips iff q is odd; translation is involutive; '
-          'cis/trans and allene translation flips on exchange at one end and is invariant under exchange of ends; pyramid/cis-trans/allene geometric signs '
-          'are antisymmetric / mirror-consistent over Z. The hand-written model of the three _translate_*_sign functions is tied by exhaustive correspondence '
-          '(all argument tuples incl. malformed on 16 seed molecules, ~1700 cases, evaluated by vm_compute). Agreement with an independent toolkit, mirror/E-Z '
-          'inequality and label-only-on-stereogenic-centres are NOT theorems: RDKit search on corpus molecules (partial).'),
-    ref='5/C12', technique='Coq theorems over regenerated tables + exhaustive model/implementation correspondence; RDKit differential search for the toolkit clause',
-    note='Modelled: _translate_tetrahedron_sign, _translate_cis_trans_sign, _translate_allene_sign, _pyramid_sign, _cis_trans_sign, _allene_sign (over Z, code uses floats). Not modelled: stereogenicity detection, SMILES stereo reader/writer (search only).')
+CLAIMED = {}
+for _f in sorted(os.listdir(os.path.join(VERIF, 'harness', 'manifest'))):
+    if _f.endswith('.json'):
+        CLAIMED[_f[:-5]] = json.load(open(os.path.join(VERIF, 'harness', 'manifest', _f)))
 
 PLANNED = {
 }
